@@ -4,6 +4,7 @@ import (
 	"context"
 	"encoding/json"
 	"errors"
+	"math"
 	"math/rand"
 	"os"
 	"sync"
@@ -18,8 +19,9 @@ import (
 type invrCfg struct {
 	Skip        int  `json:"Skip"`
 	NCb         int  `json:"NCb"`
-	SkipDefault bool `json:"SkipDefault"` // leave SkipInterval zero (library default 15 s)
-	UnitMs      int  `json:"UnitMs"`      // one model time unit in milliseconds (default 1000)
+	SkipDefault bool `json:"SkipDefault"`
+	SkipHuge    bool `json:"SkipHuge"`
+	UnitMs      int  `json:"UnitMs"`   // one model time unit in milliseconds (default 1000)
 }
 
 type invrStepJ struct {
@@ -85,6 +87,10 @@ func TestInvalidatorReplay(t *testing.T) {
 			inv := &cache.Invalidator{}
 			if !cfg.SkipDefault {
 				inv.SkipInterval = time.Duration(cfg.Skip) * unit
+			}
+
+			if cfg.SkipHuge { // the largest interval there is: after the first accepted call every call is rejected
+				inv.SkipInterval = time.Duration(math.MaxInt64)
 			}
 
 			var log []int
